@@ -23,6 +23,7 @@ package main
 
 import (
 	"context"
+	"database/sql"
 	"encoding/binary"
 	"encoding/json"
 	"errors"
@@ -44,6 +45,7 @@ import (
 	"github.com/ethereum/go-ethereum"
 	"github.com/ethereum/go-ethereum/common"
 	"github.com/ethereum/go-ethereum/core/types"
+	_ "github.com/mattn/go-sqlite3"
 
 	"verifharness/hlib"
 )
@@ -70,7 +72,7 @@ type WorldIn struct {
 }
 
 type EvIn struct {
-	Op    string `json:"op"` // w p h H t r m
+	Op    string `json:"op"` // w p h H t r m x
 	V     int    `json:"v"`
 	Head  uint64 `json:"head"`
 	Fin   uint64 `json:"fin"`
@@ -435,6 +437,7 @@ type recProc struct {
 	at        int32 // current script event
 	hangNext  bool
 	hanging   chan struct{}
+	onReorg   func() // witness op x: called inside Reorg, i.e. while the detector waits for ReorgProcessed
 }
 
 func (p *recProc) GetLastProcessedBlock(ctx context.Context) (uint64, error) {
@@ -468,6 +471,10 @@ func (p *recProc) ProcessBlock(ctx context.Context, b aggsync.Block) error {
 func (p *recProc) Reorg(ctx context.Context, first uint64) error {
 	p.mu.Lock()
 	defer p.mu.Unlock()
+	if p.onReorg != nil {
+		p.onReorg()
+		p.onReorg = nil
+	}
 	keep := p.blocks[:0:0]
 	for _, b := range p.blocks {
 		if b.Num < first {
@@ -799,6 +806,105 @@ func (r *runner) crashMid() error {
 	return nil
 }
 
+// raceTick (op x, witness only, never generated): ONE detector tick during which the detector's DELETE of the reorged
+// range is held up (another connection holds the SQLite write lock from inside processor.Reorg until released), while the
+// driver, which has already answered ReorgProcessed, restarts the download (e.Head polls are granted), takes one block and
+// calls AddBlockToTrack for it. Then the lock is released. This is a legal schedule of the real goroutines (the detector
+// is merely slow between `<-sub.ReorgProcessed` and removeTrackedBlockRange).
+func (r *runner) raceTick(polls int) error {
+	lockDB, err := sql.Open("sqlite3", "file:"+r.dbPath+"?_txlock=immediate&_busy_timeout=10000&_journal_mode=WAL")
+	if err != nil {
+		return r.fail("lock connection: %v", err)
+	}
+	defer lockDB.Close()
+	var tx *sql.Tx
+	locked := make(chan error, 1)
+	r.proc.mu.Lock()
+	r.proc.onReorg = func() {
+		var e error
+		tx, e = lockDB.Begin()
+		locked <- e
+	}
+	r.proc.mu.Unlock()
+	_, rw0 := r.proc.counts()
+	a0 := r.dlc.arrived()
+	done := make(chan error, 1)
+	r.rdc.arm(false, 0)
+	go func() { done <- r.n.rd.VerifTick(r.n.ctx) }()
+	select {
+	case <-done: // no reorg was notified: an ordinary tick
+		r.proc.mu.Lock()
+		r.proc.onReorg = nil
+		r.proc.mu.Unlock()
+		if !waitFor(r.parked, stepTimeout) {
+			return r.fail("timeout: no downloader waiting after the tick")
+		}
+		return nil
+	case e := <-locked:
+		if e != nil {
+			return r.fail("lock: %v", e)
+		}
+	case <-time.After(stepTimeout):
+		return r.fail("timeout: tick neither finished nor notified")
+	}
+	release := func() {
+		if tx != nil {
+			_ = tx.Rollback()
+			tx = nil
+		}
+	}
+	defer release()
+	// the driver has run processor.Reorg; it answers ReorgProcessed and restarts; the detector is stuck in its DELETE
+	if !waitFor(func() bool { _, rw := r.proc.counts(); return rw > rw0 && r.dlc.arrived() > a0 && r.parked() }, stepTimeout) {
+		return r.fail("timeout: the driver did not restart the download")
+	}
+	for i := 0; i < polls; i++ {
+		if err := r.poll(false); err != nil {
+			return err
+		}
+	}
+	// one block to the driver: AddBlockToTrack updates the memory map, then waits for the DB like the detector does
+	s := r.n.tp.session()
+	s.mu.Lock()
+	if len(s.queue) > 0 {
+		b := s.queue[0]
+		s.queue = s.queue[1:]
+		s.mu.Unlock()
+		p0, _ := r.proc.counts()
+		select {
+		case s.out <- b:
+		case <-time.After(stepTimeout):
+			return r.fail("timeout: the driver did not take the block")
+		}
+		if !b.IsFinalizedBlock {
+			if !waitFor(func() bool {
+				nums, _, _ := r.n.rd.VerifTracked(subscriberID)
+				for _, n := range nums {
+					if n == b.Num {
+						return true
+					}
+				}
+				return false
+			}, stepTimeout) {
+				return r.fail("timeout: AddBlockToTrack did not reach the memory map")
+			}
+		}
+		release()
+		if !waitFor(func() bool { p, _ := r.proc.counts(); return p > p0 }, stepTimeout) {
+			return r.fail("timeout: the driver did not process the block")
+		}
+	} else {
+		s.mu.Unlock()
+		release()
+	}
+	select {
+	case <-done:
+	case <-time.After(stepTimeout):
+		return r.fail("timeout: the tick did not return after the lock was released")
+	}
+	return nil
+}
+
 func (r *runner) snapshot() error {
 	nums, hashes, _ := r.n.rd.VerifTracked(subscriberID)
 	r.out.Mem = [][2]uint64{}
@@ -854,6 +960,8 @@ func (r *runner) runLock() error {
 			if err = r.stop(); err == nil {
 				err = r.start()
 			}
+		case "x":
+			err = r.raceTick(int(e.Head))
 		case "m":
 			if err = r.crashMid(); err == nil {
 				if err = r.stop(); err == nil {
